@@ -482,7 +482,8 @@ pub fn run<P: Property>(prop: &P, tier: Tier, seed: u64, replay: Option<PathBuf>
         "wall_s": wall,
         "violations": st.violations.len(),
     });
-    let evdir = verif_root().join("evidence");
+    // VP_EVIDENCE_DIR: used when running against seeded changes so the committed evidence is not overwritten
+    let evdir = std::env::var_os("VP_EVIDENCE_DIR").map(PathBuf::from).unwrap_or_else(|| verif_root().join("evidence"));
     let _ = std::fs::create_dir_all(&evdir);
     let _ = std::fs::write(evdir.join(format!("{}.json", id)), serde_json::to_string_pretty(&ev).unwrap());
 
